@@ -1,2 +1,56 @@
 #!/usr/bin/env python3
-"""Regenerates section 4 of DESIGN.md from checks.json + manifest_meta.json (see the inline copy in git history)."""
+"""Regenerates section 4 of DESIGN.md from checks.json + manifest_meta.json.
+
+Usage: ./tools_design_sec4.py   (rewrites /verif/DESIGN.md in place)
+"""
+import json
+import os
+
+D = os.path.dirname(os.path.abspath(__file__))
+c = json.load(open(os.path.join(D, 'checks.json')))
+m = json.load(open(os.path.join(D, 'manifest_meta.json')))
+props = {}
+for l in open(os.path.join(D, 'properties.jsonl')):
+    if l.strip():
+        o = json.loads(l)
+        props[o["id"]] = o
+p = os.path.join(D, 'DESIGN.md')
+s = open(p).read()
+i = s.index('## 4. Per-property decision procedures')
+j = s.index('## 5. Not-applicable clauses and fall-backs')
+out = ['## 4. Per-property decision procedures (as built)\n', '''
+This section is generated from `/verif/checks.json` (harnesses, parameter sets
+per tier, stated bounds) and `manifest_meta.json` (`tools_design_sec4.py`); the
+harness sources are `/verif/harness/<pkg>/zz_verif_cNN.go`. For every harness
+the evidence file lists the mkdb functions whose SSA was executed
+(`functions_encoded`), the intrinsics hit, the parameter sets explored with
+their path counts, solver calls and time. "Quick" parameter sets are what
+`vp check` runs; "thorough" ones are supersets or deeper variants. A parameter
+set is registered only if it explores exhaustively (no unknown, no cap, no
+budget overrun) on the unchanged tree within its time limit.
+
+Shared machinery of the statement-level harnesses (`engine/zz_verif_lib.go`):
+an in-memory model of a database (tables with rows in insertion order),
+generators for INSERT/UPDATE/DELETE/CREATE TABLE statements whose values,
+comparison constants and (by choice) operators are symbolic, ten concrete
+prefix scenarios that put the storage next to every structural event (empty;
+3, 8, 9, 12, 16, 30, 40+20 rows with and without tombstones; two tables), and
+`verifCheckDB`, which compares `SELECT *` of every table and `sys_schema`
+with the model (values bit for bit, row ids strictly increasing and unique
+across tables). Prefixes are concrete, are flushed and reopened cold, and are
+served from a per-worker file-system image.
+''']
+for pid in sorted(c):
+    pc = c[pid]
+    out.append(f"\n### {pid} {props[pid]['title']}\n")
+    out.append("\n*What is decided and how.* " + m["checks"][pid]["text"] + "\n")
+    out.append("\n*Harnesses.* " + ", ".join(
+        f"`{h['name']}` ({h['pkg']}; quick {len(h['quick'].get('configs', [{}]))} / thorough {len(h['thorough'].get('configs', [{}]))} parameter sets)"
+        for h in pc["harnesses"]) + ".\n")
+    out.append("\n*Bounds.* " + pc["bounds"] + ".\n")
+    out.append("\n*Outside the claim.* " + pc["outside"] + ".\n")
+    if pc.get("assumptions"):
+        out.append("\n*Assumptions.* " + "; ".join(pc["assumptions"]) + ".\n")
+out.append("\n---------------------------------------------------------------------------\n\n")
+s = s[:i] + "".join(out) + s[j:]
+open(p, 'w').write(s)
